@@ -48,3 +48,22 @@ Theorem C17_loader_fuel_suffices : forall fuel cfg files fid g,
   /\ forall g' ls, load fuel cfg files fid g = Ok (g', ls) -> used_grows g g'.
 Proof. exact load_fuel_suffices. Qed.
 Print Assumptions C17_loader_fuel_suffices.
+
+(* Including file t at some point of a file is: read what precedes; then -- if that point lies in a selected branch and t
+   has not been used yet -- read t's own items in place, threading the global state (symbols, zones, labels, files used,
+   region counter) through them, under a fresh file-local state (no open conditionals, not muted, the file scope of t,
+   GLOBAL selected); then read what follows with the includer's file-local state exactly as it was, t's lines standing
+   between those of what precedes and what follows. *)
+Theorem C17_include_is_in_place : forall cfg fu files fid t items_t pre post g0 fs0 acc0,
+  nth_error files t = Some items_t ->
+  run_items (item_step cfg (load (S fu) cfg files) fid) (pre ++ IInclude (Some t) :: post) (g0, fs0, acc0) =
+  do st1 <- run_items (item_step cfg (load (S fu) cfg files) fid) pre (g0, fs0, acc0);
+  let '(g1, fs1, acc1) := st1 in
+  if currently_active (f_stack fs1) then
+    if in_nat t (g_used g1) then Rejected else
+    do rt <- run_items (item_step cfg (load fu cfg files) t) items_t (mark_used g1 t, file_init t, []);
+    let '(g2, _, acct) := rt in
+    run_items (item_step cfg (load (S fu) cfg files) fid) post (g2, fs1, acct ++ acc1)
+  else run_items (item_step cfg (load (S fu) cfg files) fid) post (g1, fs1, acc1).
+Proof. exact include_in_place. Qed.
+Print Assumptions C17_include_is_in_place.
